@@ -8,6 +8,7 @@ WRAP = ["-Wl,--wrap=malloc,--wrap=calloc,--wrap=realloc,--wrap=free,--wrap=atexi
 NOBUILTIN = ["-fno-builtin-malloc", "-fno-builtin-calloc", "-fno-builtin-realloc", "-fno-builtin-free"]
 M64 = (1 << 64) - 1
 RECLENS = [1, 1, 2, 3, 4, 7, 8, 8, 16, 24, 100]
+BB_SRCS = ["datastruct/elasticarray.c", "datastruct/elasticqueue.c", "datastruct/seqptrmap.c"]
 
 
 def sched_op(r):
@@ -254,12 +255,48 @@ def gen_sm(rng, tier, mult):
     return cases
 
 
+POOL_SIZES = [1, 2, 3, 4]          # MPOOL instantiations of harness/h_ds.c (`mp_init <size>`; DsStep.poolSizes)
+
+
+def mp_cross(k, rounds=2, order="lifo", sched=None, sched_at=0):
+    """Drive the pool of cache size k across its cache size: allocate k+2 objects, free them all (the (k+1)-th free
+    doubles the stack, or - request refused - releases the object), allocate again (served from the cache, which must not
+    hold anything that was released), ..., exit.  `sched` is put before phase number `sched_at`."""
+    ops = ["mp_init %d" % k]
+    phases = []
+    n = k + 2
+    for _ in range(rounds):
+        phases.append(["mp_malloc"] * n)
+        if order == "lifo":
+            phases.append(["mp_freenth %d" % (n - 1 - i) for i in range(n)])
+        else:
+            phases.append(["mp_freenth 0"] * n)
+        n += 1
+    phases.append(["mp_malloc"] * (k + 2))
+    for i, ph in enumerate(phases):
+        if sched is not None and i == sched_at:
+            ops.append(sched)
+        ops += ph
+    ops += ["mp_exit", "end"]
+    return ops
+
+
 def gen_mp(rng, tier, mult):
     n = (800 if tier == "quick" else 8000) * mult
     cases = []
+    # every pool across its cache size, with and without refused requests (the refused one is the stack doubling of the
+    # first / second crossing, or everything from there on)
+    for k in POOL_SIZES:
+        for order in ("lifo", "fifo"):
+            cases.append(mp_cross(k, order=order))
+            for sched, at in (("failat 1", 1), ("failfrom 1", 1), ("failat 1", 3), ("failat 2", 1), ("failfrom 1", 4)):
+                cases.append(mp_cross(k, order=order, sched=sched, sched_at=at))
     for ci in range(n):
         r = rng.fork("mp%d" % ci)
         ops = []
+        size = r.choice([1, 1, 2, 2, 3, 4, 4, 4])
+        if size != 4 or r.chance(1, 2):
+            ops.append("mp_init %d" % size)
         big = r.chance(1, 12)
         inuse = 0
         mode = r.choice(["mix", "burst", "burst", "churn"])
@@ -275,7 +312,7 @@ def gen_mp(rng, tier, mult):
             if mode == "burst":
                 # allocate past the cache size, then give everything back: the stack doubles
                 if inuse == 0:
-                    target = r.choice([3, 4, 5, 6, 9, 10, 17, 18, 33, 40])
+                    target = r.choice([size, size + 1, size + 2, 2 * size + 1, 2 * size + 2, 3, 4, 5, 6, 9, 10, 17, 18, 33, 40])
                     ops += ["mp_malloc"] * target
                     inuse += target
                 else:
@@ -300,6 +337,10 @@ def gen_mp(rng, tier, mult):
             ops.append("failfrom 1")     # frees and exit must work when every request is refused
         for _ in range(r.range(0, inuse + 1)):
             ops.append("mp_freenth %d" % r.below(1000))
+        if r.chance(1, 4):
+            # what the cache holds now is handed out again: nothing in it may have been released
+            ops.append("failoff")
+            ops += ["mp_malloc"] * r.range(1, 2 * size + 2)
         ops.append("mp_exit")
         ops.append("end")
         cases.append(ops)
@@ -361,7 +402,9 @@ def mutating(prefixes, k):
 
 
 def components(ctx):
-    common = dict(monitor_args=["dsmon"], extra=NOBUILTIN, ldflags=WRAP, classify=classify)
+    # black-box fallback (harness/h_ds.c -DHC_BLACKBOX): the .c files h_ds.c #includes are compiled separately; the pool's
+    # static record cannot be re-created through mpool.h's interface, so pool cases get one process each
+    common = dict(monitor_args=["dsmon"], extra=NOBUILTIN, ldflags=WRAP, classify=classify, bb_ok=True, bb_srcs=BB_SRCS)
     return [
         vlib.Component("ea", "h_ds.c", [], ["ds"], gen_ea,
                        nontrivial=mutating(("ea_append", "ea_resize", "ea_shrink", "ea_trunc"), 3),
@@ -380,9 +423,13 @@ def components(ctx):
                             "non-trivial = >= 3 add/delete", **common),
         vlib.Component("mp", "h_ds.c", [], ["ds"], gen_mp,
                        nontrivial=mutating(("mp_malloc", "mp_free"), 5),
-                       rule="mp: pool of cache size 4; bursts past the cache size followed by frees (stack doubling 4->8->16->32->64), "
-                            "cache-served churn, random mixes, failure schedules incl. refuse-everything before the final frees and exit; "
-                            "non-trivial = >= 5 malloc/free", **common),
+                       rule="mp: pools of cache size 1, 2, 3 and 4 (mp_init <size>; separate MPOOL instantiations); for every size "
+                            "directed sequences across the cache size (size+2 allocations, all freed in LIFO/FIFO order so that the "
+                            "stack doubles, allocated again from the cache, twice, exit) without faults and with the doubling's request "
+                            "refused once / from then on; bursts past the cache size followed by frees (stack doubling "
+                            "1->2->4.., 4->8->16->32->64), cache-served churn, random mixes, failure schedules incl. "
+                            "refuse-everything before the final frees and exit, re-allocation of everything the cache holds; "
+                            "non-trivial = >= 5 malloc/free", bb_fresh=True, **common),
     ]
 
 
